@@ -26,7 +26,7 @@ func isFieldLoad(v ssa.Value, base ssa.Value, field string) bool {
 
 // isDerefFieldLoad: v is *(base.field).
 func isDerefFieldLoad(v ssa.Value, base ssa.Value, field string) bool {
-	u, ok := core.StripConv(v).(*ssa.UnOp)
+	u, ok := core.StripConv(core.ResolveBoundary(core.StripConv(v))).(*ssa.UnOp)
 	if !ok || u.Op != token.MUL {
 		return false
 	}
@@ -415,8 +415,17 @@ func C02(c *core.Ctx) {
 				restoreRoot := core.WithRoot(pii)
 				flows := core.FlowPath(fargs[0], ci, isHintName, cutNotReaching, nil)
 				flowsAtAll := core.FlowPath(fargs[0], ci, isHintName, nil, nil)
+				// the same without a flag: no hint name arrives along a path that took an
+				// IsProducer()==true edge after the name was picked (`return nil` in the loop)
+				prodTrue := map[core.Edge]bool{}
+				for _, f := range core.EdgeFactsDeep(pii, isProdAtom) {
+					if f.Holds {
+						prodTrue[f.E] = true
+					}
+				}
+				direct := len(prodTrue) > 0 && !core.FlowPathVia(fargs[0], ci, isHintName, prodTrue)
 				restoreRoot()
-				c.Decide(!flows && perR[0] > 0 && flowsAtAll, "R2.3", "hint-lookup-only-outside-producer-region", c.Pos(ci),
+				c.Decide(((!flows && perR[0] > 0) || direct) && flowsAtAll, "R2.3", "hint-lookup-only-outside-producer-region", c.Pos(ci),
 					"a forwarding-hint name reaches the FIB lookup only through the edge asserting that no hint name lies in the producer region",
 					fmt.Sprintf("a forwarding-hint name can be used for the FIB lookup although a hint name lies in this forwarder's producer region (the hint is not discarded on that path), or the hint is never used [flow avoiding ¬reaching edges=%v, ¬reaching edges=%d, hint flows at all=%v]", flows, perR[0], flowsAtAll))
 			}
